@@ -139,7 +139,7 @@ pub struct Placement {
 }
 
 pub fn placement(max_lk: f64) -> impl Strategy<Value = Placement> {
-    (0..SHAPES, 0..ORDERS, -15.0..15.0f64, prop_oneof![1 => Just(None), 3 => (0.0..max_lk).prop_map(Some)], any::<bool>())
+    (0..SHAPES, 0..ORDERS, prop_oneof![3 => -15.0..15.0f64, 1 => -29.0..-15.0f64, 1 => 15.0..29.0f64], prop_oneof![1 => Just(None), 3 => (0.0..max_lk).prop_map(Some)], any::<bool>())
         .prop_map(|(shape, order, ls, lk, neg)| Placement { shape, order, ls, lk, neg })
 }
 
